@@ -151,7 +151,7 @@ Section Eqs.
   Lemma exec_block_cons r s b :
     exec_block fo tys r (BCons s b) =
     bind (exec_stmt fo tys r s) (fun o =>
-      match o with Next r' => exec_block fo tys r' b | Ret v => Ok (Ret v) end).
+      match o with Next r' => exec_block fo tys r' b | o' => Ok o' end).
   Proof. reflexivity. Qed.
   Lemma exec_els_none r : exec_els fo tys r ElNone = Ok (Next r).
   Proof. reflexivity. Qed.
@@ -164,24 +164,24 @@ Section Eqs.
   Proof. reflexivity. Qed.
 
   (* ---- Compile.c* ---- *)
-  Lemma cstmt_decl i t e :
-    cstmt tys ret (SDecl i t e) =
+  Lemma cstmt_decl d lp i t e :
+    cstmt tys ret d lp (SDecl i t e) =
     match nth_error tys i with
     | Some vt =>
         match cexpr_to tys (Some vt) e vt with Some c => Some (c ++ [LSet i], false) | None => None end
     | None => None
     end.
   Proof. reflexivity. Qed.
-  Lemma cstmt_assign i e :
-    cstmt tys ret (SAssign i e) =
+  Lemma cstmt_assign d lp i e :
+    cstmt tys ret d lp (SAssign i e) =
     match nth_error tys i with
     | Some vt =>
         match cexpr_to tys (Some vt) e vt with Some c => Some (c ++ [LSet i], false) | None => None end
     | None => None
     end.
   Proof. reflexivity. Qed.
-  Lemma cstmt_compound i op e :
-    cstmt tys ret (SCompound i op e) =
+  Lemma cstmt_compound d lp i op e :
+    cstmt tys ret d lp (SCompound i op e) =
     match nth_error tys i with
     | Some vt =>
         match cexpr_to tys (Some vt) e vt, arith_op op vt with
@@ -191,14 +191,14 @@ Section Eqs.
     | None => None
     end.
   Proof. reflexivity. Qed.
-  Lemma cstmt_if c th el :
-    cstmt tys ret (SIf c th el) =
-    match ccond tys c, cblock tys ret th with
+  Lemma cstmt_if d lp c th el :
+    cstmt tys ret d lp (SIf c th el) =
+    match ccond tys c, cblock tys ret (S d) lp th with
     | Some cc, Some (cth, dth) =>
         match el with
         | ElNone => Some (cc ++ [If None cth None], false)
         | _ =>
-            match cels tys ret el with
+            match cels tys ret (S d) lp el with
             | Some (cel, has_else, dall) =>
                 let all := has_else && dth && dall in
                 Some (cc ++ [If None cth (Some cel)] ++ (if all then [Unreachable] else []), all)
@@ -208,30 +208,30 @@ Section Eqs.
     | _, _ => None
     end.
   Proof. reflexivity. Qed.
-  Lemma cstmt_return e :
-    cstmt tys ret (SReturn e) =
+  Lemma cstmt_return d lp e :
+    cstmt tys ret d lp (SReturn e) =
     match cexpr_to tys None e ret with Some c => Some (c ++ [Return], true) | None => None end.
   Proof. reflexivity. Qed.
-  Lemma cblock_nil : cblock tys ret BNil = Some ([], false).
+  Lemma cblock_nil d lp : cblock tys ret d lp BNil = Some ([], false).
   Proof. reflexivity. Qed.
-  Lemma cblock_cons s b :
-    cblock tys ret (BCons s b) =
-    match cstmt tys ret s with
+  Lemma cblock_cons d lp s b :
+    cblock tys ret d lp (BCons s b) =
+    match cstmt tys ret d lp s with
     | Some (cs, true) => Some (cs, true)
     | Some (cs, false) =>
-        match cblock tys ret b with Some (cr, d) => Some (cs ++ cr, d) | None => None end
+        match cblock tys ret d lp b with Some (cr, dd) => Some (cs ++ cr, dd) | None => None end
     | None => None
     end.
   Proof. reflexivity. Qed.
-  Lemma cels_none : cels tys ret ElNone = Some ([], false, false).
+  Lemma cels_none d lp : cels tys ret d lp ElNone = Some ([], false, false).
   Proof. reflexivity. Qed.
-  Lemma cels_else b :
-    cels tys ret (ElElse b) =
-    match cblock tys ret b with Some (cb, d) => Some (cb, true, d) | None => None end.
+  Lemma cels_else d lp b :
+    cels tys ret d lp (ElElse b) =
+    match cblock tys ret d lp b with Some (cb, dd) => Some (cb, true, dd) | None => None end.
   Proof. reflexivity. Qed.
-  Lemma cels_elif c th el :
-    cels tys ret (ElElif c th el) =
-    match ccond tys c, cblock tys ret th, cels tys ret el with
+  Lemma cels_elif d lp c th el :
+    cels tys ret d lp (ElElif c th el) =
+    match ccond tys c, cblock tys ret (S d) lp th, cels tys ret (S d) lp el with
     | Some cc, Some (cth, dth), Some (cel, has_else, dall) =>
         Some (cc ++ [If None cth (Some cel)], has_else, dth && dall)
     | _, _, _ => None
